@@ -549,7 +549,10 @@ def generate(rng, tier, outdir):
              "binary64), one-qubit gates, idle qubits, arbitrary first use, partial and full barriers, occasionally an opaque 2-qubit "
              "non-Gate instruction; W in 1..n, cut kinds {gate, wire, both}, max_gamma in {1,2,3,9,49,1024}, max_backjumps in "
              "{0,1,5,10000,None}, seed None or int with the queue's random tape recorded; malformed stream: 3-qubit gate, invalid "
-             "settings, no cut kind, classical bits. Compared: output instruction list, cuts, overhead, minimum_reached, final and greedy "
+             "settings (max_gamma < 1, negative max_backjumps, W = 0), no cut kind, classical bits; targeted corner cases; boundary "
+             "settings (non-integer and huge max_gamma, seeds >= 2^32); a judge-only stream (no model comparison: all gate families with "
+             "random angles, 9-10 qubits, several registers, global phase, labels) and a monitored contract that the property-level "
+             "oracle accepts every generated case. Compared: output instruction list, cuts, overhead, minimum_reached, final and greedy "
              "state (wiremap, roots, widths, no_merge, gamma_UB, actions, level), SearchStats (+penultimate), tape consumption, "
              "SimpleGateList after export_cuts. non-trivial = at least one cut made." % max2q,
         extra=dict(extra=dict(strict=STRICT)))
